@@ -292,15 +292,9 @@ Section Ref.
         do (vf, s1) <- eval n stk ρ fn s;
         do (a, s2) <- eval_args n stk ρ args [] [] None None s1;
         let '(pos_, named, star, starstar) := a in
-        do kw2 <- (match starstar with
-                   | None => Ok []
-                   | Some (VRef d) => match get_obj (rw s2) d with
-                                      | Some (ODict kvs _) => match kw_of_dict kvs with Some l => Ok l | None => Fail ps false (rw s2) end
-                                      | _ => Fail ps false (rw s2) end
-                   | Some _ => Fail ps false (rw s2) end);
-        do pos2 <- (match star with
-                    | None => Ok []
-                    | Some v => lift (elements v (rw s2)) ps (rw s2) end);
+        (* **kwargs must be a mapping with string keys, *args an iterable *)
+        do kw2 <- lift (starstar_args starstar (rw s2)) ps (rw s2);
+        do pos2 <- lift (star_args star (rw s2)) ps (rw s2);
         call n stk vf (pos_ ++ pos2)%list (named ++ kw2)%list ps s2
     | ELambda fid ps body _ =>
         do (ds, s1) <- eval_defaults n stk ρ ps false s;
